@@ -269,4 +269,375 @@ theorem group_chain {ws : List Way} {ms todo seen : List Int64} {loops res : Lis
               subst h1
               simp [isChain, he, hj]
 
+/-! ### sums over duplicate-free lists -/
+
+theorem sum_erase {α : Type} [DecidableEq α] (f : α → Nat) {m : List α} {x : α} (h : x ∈ m) :
+    (m.map f).sum = f x + ((m.erase x).map f).sum := by
+  induction m with
+  | nil => cases h
+  | cons a t ih =>
+    by_cases hax : a = x
+    · subst hax; simp
+    · have hx : x ∈ t := by
+        rcases List.mem_cons.mp h with h' | h'
+        · exact absurd h'.symm hax
+        · exact h'
+      have hne : (a == x) = false := by simpa using hax
+      simp only [List.map_cons, List.sum_cons, List.erase_cons, hne, ih hx]
+      simp only [Bool.false_eq_true, if_false, List.map_cons, List.sum_cons]
+      omega
+
+/-- the values of distinct elements of `m` add up to at most the sum over `m` -/
+theorem sum_le_of_nodup {α : Type} [DecidableEq α] (f : α → Nat) :
+    ∀ (xs m : List α), xs.Nodup → (∀ x ∈ xs, x ∈ m) → (xs.map f).sum ≤ (m.map f).sum
+  | [], _, _, _ => by simp
+  | x :: xs, m, hnd, hsub => by
+    have hx : x ∈ m := hsub x (by simp)
+    have hnd' := List.nodup_cons.mp hnd
+    have := sum_le_of_nodup f xs (m.erase x) hnd'.2 (by
+      intro y hy
+      have hne : y ≠ x := fun e => hnd'.1 (e ▸ hy)
+      exact (List.mem_erase_of_ne hne).mpr (hsub y (by simp [hy])))
+    rw [sum_erase f hx]
+    simp only [List.map_cons, List.sum_cons]
+    omega
+
+theorem sum_filter_cons {α : Type} [DecidableEq α] (f : α → Nat) (z : α) (S : List α) (hz : z ∉ S) :
+    ∀ (l : List α), l.Nodup →
+      ((l.filter fun x => (z :: S).contains x).map f).sum =
+        ((l.filter fun x => S.contains x).map f).sum + (if z ∈ l then f z else 0)
+  | [], _ => by simp
+  | h :: t, hnd => by
+    have hnd' := List.nodup_cons.mp hnd
+    have ih := sum_filter_cons f z S hz t hnd'.2
+    by_cases hhz : h = z
+    · subst hhz
+      have h1 : (h :: S).contains h = true := by simp
+      have h2 : S.contains h = false := by simpa using hz
+      simp only [List.filter_cons, h1, h2, if_true, List.map_cons, List.sum_cons, ih, hnd'.1, if_false,
+        List.mem_cons, true_or, Bool.false_eq_true]
+      omega
+    · have h1 : (z :: S).contains h = S.contains h := by
+        simp [List.contains_cons, hhz]
+      have hzin : (z ∈ h :: t) ↔ z ∈ t := by
+        simp [List.mem_cons, Ne.symm hhz]
+      simp only [List.filter_cons, h1, hzin]
+      split
+      · simp only [List.map_cons, List.sum_cons, ih]; omega
+      · exact ih
+
+/-! ### way-ends per node -/
+
+/-- the number of ends (0, 1 or 2) way `id` has at node `v` -/
+def e (ws : List Way) (id v : Int64) : Nat :=
+  match (findWay ws id).bind ends with
+  | some (a, b) => (if a = v then 1 else 0) + (if b = v then 1 else 0)
+  | none => 0
+
+/-- all member way-ends at `v` -/
+def total (ws : List Way) (ms : List Int64) (v : Int64) : Nat := (ms.map (e ws · v)).sum
+
+/-- the way-ends at `v` of the member ways in `S` -/
+def sc (ws : List Way) (ms S : List Int64) (v : Int64) : Nat :=
+  ((ms.filter fun x => S.contains x).map (e ws · v)).sum
+
+theorem e_of_ends {ws : List Way} {id a b : Int64} (h : (findWay ws id).bind ends = some (a, b)) (v : Int64) :
+    e ws id v = (if a = v then 1 else 0) + (if b = v then 1 else 0) := by
+  simp [e, h]
+
+theorem incident_length (ws : List Way) (ms : List Int64) (v : Int64) :
+    (incident ws ms v).length = total ws ms v := by
+  unfold incident total
+  rw [List.length_flatMap]
+  congr 1
+  apply List.map_congr_left
+  intro id _
+  cases h : (findWay ws id).bind ends with
+  | none => simp [e, h]
+  | some p =>
+    obtain ⟨a, b⟩ := p
+    simp only [e, h, List.length_append]
+    by_cases ha : a = v <;> by_cases hb : b = v <;> simp [ha, hb]
+
+theorem e_pos_of_incident {ws : List Way} {ms : List Int64} {v x : Int64} (h : x ∈ incident ws ms v) :
+    1 ≤ e ws x v := by
+  obtain ⟨a, b, he, hab⟩ := incident_ends h
+  rw [e_of_ends he]
+  rcases hab with h' | h' <;> simp [h'] <;> omega
+
+theorem sc_le_total (ws : List Way) (ms S : List Int64) (v : Int64) (hnd : ms.Nodup) :
+    sc ws ms S v ≤ total ws ms v :=
+  sum_le_of_nodup _ _ _ (hnd.filter _) (fun x hx => (List.mem_filter.mp hx).1)
+
+theorem sc_cons (ws : List Way) (ms S : List Int64) (z v : Int64) (hnd : ms.Nodup) (hz : z ∈ ms) (hzS : z ∉ S) :
+    sc ws ms (z :: S) v = sc ws ms S v + e ws z v := by
+  unfold sc
+  rw [sum_filter_cons (e ws · v) z S hzS ms hnd]
+  simp [hz]
+
+theorem two_le_sc (ws : List Way) (ms S : List Int64) (v x y : Int64) (hxy : x ≠ y)
+    (hx : x ∈ ms) (hy : y ∈ ms) (hxS : x ∈ S) (hyS : y ∈ S) : e ws x v + e ws y v ≤ sc ws ms S v := by
+  have := sum_le_of_nodup (e ws · v) [x, y] (ms.filter fun t => S.contains t) (by simp [hxy])
+    (by intro t ht; simp only [List.mem_cons, List.not_mem_nil, or_false] at ht
+        rcases ht with rfl | rfl <;> simp [List.mem_filter, *])
+  unfold sc
+  simp only [List.map_cons, List.map_nil, List.sum_cons, List.sum_nil] at this
+  omega
+
+theorem two_le_total (ws : List Way) (ms : List Int64) (v x y : Int64) (hxy : x ≠ y)
+    (hx : x ∈ ms) (hy : y ∈ ms) : e ws x v + e ws y v ≤ total ws ms v := by
+  have := sum_le_of_nodup (e ws · v) [x, y] ms (by simp [hxy])
+    (by intro t ht; simp only [List.mem_cons, List.not_mem_nil, or_false] at ht
+        rcases ht with rfl | rfl <;> assumption)
+  unfold total
+  simp only [List.map_cons, List.map_nil, List.sum_cons, List.sum_nil] at this
+  omega
+
+theorem three_le_total (ws : List Way) (ms : List Int64) (v x y z : Int64) (hxy : x ≠ y) (hxz : x ≠ z) (hyz : y ≠ z)
+    (hx : x ∈ ms) (hy : y ∈ ms) (hz : z ∈ ms) : e ws x v + e ws y v + e ws z v ≤ total ws ms v := by
+  have := sum_le_of_nodup (e ws · v) [x, y, z] ms (by simp [hxy, hxz, hyz])
+    (by intro t ht; simp only [List.mem_cons, List.not_mem_nil, or_false] at ht
+        rcases ht with rfl | rfl | rfl <;> assumption)
+  unfold total
+  simp only [List.map_cons, List.map_nil, List.sum_cons, List.sum_nil] at this
+  omega
+
+/-! ### closed rings -/
+
+/-- the ways form node-disjoint cycles: members distinct, and every end node of a member way carries exactly two
+member way-ends -/
+structure Cyc (ws : List Way) (ms : List Int64) : Prop where
+  nodup : ms.Nodup
+  deg : ∀ id ∈ ms, ∀ a b, (findWay ws id).bind ends = some (a, b) → total ws ms a = 2 ∧ total ws ms b = 2
+
+theorem follow_closed {ws : List Way} {ms : List Int64} (H : Cyc ws ms) {s a0 b0 : Int64}
+    (hs : (findWay ws s).bind ends = some (a0, b0)) (hsm : s ∈ ms) :
+    ∀ (fuel : Nat) (seen loop : List Int64) (cur joint : Int64) (loop' seen' : List Int64),
+      follow ws ms fuel seen loop cur joint = .ok (loop', seen') →
+      s ∈ seen → cur ∈ seen → cur ∈ ms → 1 ≤ e ws cur joint →
+      thread ws a0 (loop ++ [cur]) = some joint →
+      (cur = s → joint ≠ a0) →
+      (∀ v, v ≠ a0 → v ≠ joint → sc ws ms seen v = 0 ∨ sc ws ms seen v = 2) →
+      (a0 ≠ joint → sc ws ms seen a0 = 1 ∧ sc ws ms seen joint = 1) →
+      (a0 = joint → sc ws ms seen a0 = 2) →
+      thread ws a0 loop' = some a0 ∧ ∀ v, sc ws ms seen' v = 0 ∨ sc ws ms seen' v = 2 := by
+  intro fuel
+  induction fuel with
+  | zero => intro seen loop cur joint loop' seen' h; simp [follow] at h
+  | succ fuel ih =>
+    intro seen loop cur joint loop' seen' h hsS hcS hcm hce hth hcs hpar hodd hcl
+    simp only [follow] at h
+    split at h
+    · cases h
+    · rename_i next hnext
+      have hnin := List.mem_of_find?_eq_some hnext
+      have hnc : next ≠ cur := by simpa using List.find?_some hnext
+      obtain ⟨a, b, he, hab⟩ := incident_ends hnin
+      have hnm : next ∈ ms := mem_incident hnin
+      have hne := e_pos_of_incident hnin
+      rw [he] at h
+      simp only at h
+      -- two way-ends at the joint
+      have htot : total ws ms joint = 2 := by
+        cases hec : (findWay ws cur).bind ends with
+        | none => simp [e, hec] at hce
+        | some pq =>
+          obtain ⟨p, q⟩ := pq
+          have := H.deg cur hcm p q hec
+          rw [e_of_ends hec] at hce
+          by_cases hp : p = joint
+          · rw [← hp]; exact this.1
+          · by_cases hq : q = joint
+            · rw [← hq]; exact this.2
+            · simp [hp, hq] at hce
+      have hes : 1 ≤ e ws s a0 := by rw [e_of_ends hs]; simp
+      by_cases hj : a0 = joint
+      · -- the chain is back at its first node: the other way there is the start way
+        have hcs' : cur ≠ s := fun e' => hcs e' hj.symm
+        have hns : next = s := by
+          by_cases hns : next = s
+          · exact hns
+          · have := three_le_total ws ms joint cur s next hcs' (Ne.symm hnc) (Ne.symm hns) hcm hsm hnm
+            rw [← hj] at this hce hne htot
+            omega
+        have hseen : seen.contains next = true := by simpa [hns] using hsS
+        simp only [hseen, if_true, Except.ok.injEq, Prod.mk.injEq] at h
+        refine ⟨by rw [← h.1, hth, hj], ?_⟩
+        intro v
+        rw [← h.2]
+        by_cases hv : v = a0
+        · subst hv; exact Or.inr (hcl hj)
+        · exact hpar v hv (by rw [← hj]; exact hv)
+      · obtain ⟨ho1, ho2⟩ := hodd hj
+        have hnS : next ∉ seen := by
+          intro hin
+          have := two_le_sc ws ms seen joint cur next (Ne.symm hnc) hcm hnm hcS hin
+          omega
+        have hseen : seen.contains next = false := by simpa using hnS
+        simp only [hseen, Bool.false_eq_true, if_false] at h
+        -- the next way has exactly one end at the joint
+        have h2 := two_le_total ws ms joint cur next (Ne.symm hnc) hcm hnm
+        have hen1 : e ws next joint = 1 := by omega
+        have hab' : a ≠ b := by
+          intro hab'
+          subst hab'
+          rw [e_of_ends he] at hen1
+          rcases hab with h' | h' <;> simp [h'] at hen1
+        -- the node the chain goes on to
+        generalize hj' : (if joint = a then b else a) = joint' at h
+        have hjj : joint' ≠ joint := by
+          rw [← hj']
+          by_cases hja : joint = a
+          · simp only [hja, if_true]; exact fun e' => hab' (e'.symm)
+          · simp only [hja, if_false]; exact fun e' => hja e'.symm
+        have hjab : joint' = a ∨ joint' = b := by
+          rw [← hj']; by_cases hja : joint = a <;> simp [hja]
+        have hother : (joint = a ∧ joint' = b) ∨ (joint = b ∧ joint' = a) := by
+          rw [← hj']
+          by_cases hja : joint = a
+          · simp [hja]
+          · rcases hab with h' | h'
+            · exact absurd h'.symm hja
+            · simp [hja, h'.symm]
+        have henj' : e ws next joint' = 1 := by
+          rw [e_of_ends he]
+          rcases hother with ⟨h1, h2⟩ | ⟨h1, h2⟩
+          · subst h1 h2; simp [hab']
+          · subst h1 h2; simp [Ne.symm hab']
+        have hen0 : ∀ v, v ≠ joint → v ≠ joint' → e ws next v = 0 := by
+          intro v hv1 hv2
+          rw [e_of_ends he]
+          rcases hother with ⟨h1, h2⟩ | ⟨h1, h2⟩
+          · subst h1 h2; simp [Ne.symm hv1, Ne.symm hv2]
+          · subst h1 h2; simp [Ne.symm hv1, Ne.symm hv2]
+        have hsc : ∀ v, sc ws ms (next :: seen) v = sc ws ms seen v + e ws next v :=
+          fun v => sc_cons ws ms seen next v H.nodup hnm hnS
+        have htot' : total ws ms joint' = 2 := by
+          have := H.deg next hnm a b he
+          rcases hjab with h' | h'
+          · rw [h']; exact this.1
+          · rw [h']; exact this.2
+        have hle := sc_le_total ws ms (next :: seen) joint' H.nodup
+        rw [hsc joint', henj', htot'] at hle
+        have hthread : thread ws a0 ((loop ++ [cur]) ++ [next]) = some joint' := by
+          rw [thread_append, hth]
+          simp only [Option.bind_some, thread, he]
+          rcases hother with ⟨h1, h2⟩ | ⟨h1, h2⟩
+          · subst h1 h2; simp
+          · subst h1 h2; simp [hab']
+        have hns : next ≠ s := fun e' => hnS (e' ▸ hsS)
+        refine ih (next :: seen) (loop ++ [cur]) next joint' loop' seen' h (by simp [hsS]) (by simp) hnm
+          (by omega) hthread (fun e' => absurd e' hns) ?_ ?_ ?_
+        · intro v hv1 hv2
+          rw [hsc v]
+          by_cases hvj : v = joint
+          · subst hvj; right; omega
+          · rw [hen0 v hvj hv2]
+            simpa using hpar v hv1 hvj
+        · intro hne'
+          have hpj := hpar joint' (Ne.symm hne') hjj
+          have : sc ws ms seen joint' = 0 := by omega
+          refine ⟨?_, by rw [hsc joint', this, henj']⟩
+          rw [hsc a0, hen0 a0 hj hne', ho1]
+        · intro heq
+          rw [hsc a0, heq, henj', ← heq, ho1]
+
+theorem sc_nil (ws : List Way) (ms : List Int64) (v : Int64) : sc ws ms [] v = 0 := by
+  have : ms.filter (fun _ => false) = [] := List.filter_eq_nil_iff.mpr (by simp)
+  simp [sc, this]
+
+theorem cyc_of_disjointCycles {ws : List Way} {ms : List Int64} (h : disjointCycles ws ms = true) : Cyc ws ms := by
+  simp only [disjointCycles, Bool.and_eq_true, decide_eq_true_eq, List.all_eq_true] at h
+  obtain ⟨⟨hnd, _⟩, hdeg⟩ := h
+  refine ⟨hnd, ?_⟩
+  intro id hid a b he
+  have := hdeg id hid
+  rw [he] at this
+  simp only [Bool.and_eq_true, beq_iff_eq] at this
+  rw [← incident_length, ← incident_length]
+  exact this
+
+theorem group_closed {ws : List Way} {ms : List Int64} (H : Cyc ws ms) {todo seen : List Int64}
+    {loops res : List (List Int64)} (h : group ws ms todo seen loops = .ok res)
+    (htodo : ∀ x ∈ todo, x ∈ ms) (hpar : ∀ v, sc ws ms seen v = 0 ∨ sc ws ms seen v = 2)
+    (hl : ∀ l ∈ loops, isClosedRing ws l = true) : ∀ l ∈ res, isClosedRing ws l = true := by
+  induction todo generalizing seen loops with
+  | nil =>
+    simp only [group, Except.ok.injEq] at h
+    subst h; exact hl
+  | cons id rest ih =>
+    simp only [group] at h
+    have hrest : ∀ x ∈ rest, x ∈ ms := fun x hx => htodo x (by simp [hx])
+    have hidm : id ∈ ms := htodo id (by simp)
+    split at h
+    · exact ih h hrest hpar hl
+    · rename_i hns
+      have hnS : id ∉ seen := by simpa using hns
+      have hsc : ∀ v, sc ws ms (id :: seen) v = sc ws ms seen v + e ws id v :=
+        fun v => sc_cons ws ms seen id v H.nodup hidm hnS
+      split at h
+      · cases h
+      · rename_i a b he
+        obtain ⟨hta, htb⟩ := H.deg id hidm a b he
+        split at h
+        · rename_i hab
+          subst hab
+          refine ih h hrest ?_ ?_
+          · intro v
+            rw [hsc v, e_of_ends he]
+            by_cases hv : a = v
+            · subst hv
+              have hle := sc_le_total ws ms (id :: seen) a H.nodup
+              rw [hsc a, e_of_ends he, hta] at hle
+              simp only [if_true] at hle ⊢
+              right; omega
+            · simpa [hv] using hpar v
+          · intro l hmem
+            rcases List.mem_append.mp hmem with hmem | hmem
+            · exact hl l hmem
+            · simp only [List.mem_singleton] at hmem
+              subst hmem
+              simp [isClosedRing, he, closedFrom]
+        · rename_i hab
+          split at h
+          · cases h
+          · rename_i loop seen' hf
+            have hea : e ws id a = 1 := by rw [e_of_ends he]; simp [Ne.symm hab]
+            have heb : e ws id b = 1 := by rw [e_of_ends he]; simp [hab]
+            have he0 : ∀ v, v ≠ a → v ≠ b → e ws id v = 0 := by
+              intro v h1 h2; rw [e_of_ends he]; simp [Ne.symm h1, Ne.symm h2]
+            have hlea := sc_le_total ws ms (id :: seen) a H.nodup
+            have hleb := sc_le_total ws ms (id :: seen) b H.nodup
+            rw [hsc a, hea, hta] at hlea
+            rw [hsc b, heb, htb] at hleb
+            have hcl := follow_closed H he hidm (ms.length + 1) (id :: seen) [] id b loop seen' hf
+              (by simp) (by simp) hidm (by omega) (by simp [thread, he]) (fun _ => Ne.symm hab)
+              (by intro v h1 h2; rw [hsc v, he0 v h1 h2]; simpa using hpar v)
+              (by
+                intro _
+                have ha := hpar a
+                have hb := hpar b
+                exact ⟨by rw [hsc a, hea]; omega, by rw [hsc b, heb]; omega⟩)
+              (fun e' => absurd e' hab)
+            obtain ⟨new, h1, _⟩ := follow_spec hf
+            simp only [List.nil_append] at h1
+            refine ih h hrest hcl.2 ?_
+            intro l hmem
+            rcases List.mem_append.mp hmem with hmem | hmem
+            · exact hl l hmem
+            · simp only [List.mem_singleton] at hmem
+              subst hmem
+              have := hcl.1
+              subst h1
+              simp [isClosedRing, he, closedFrom_eq_thread, this]
+
+/-- **disjoint cycles ⇒ every loop is closed** -/
+theorem rings_closed {ws : List Way} {ms : List Int64} {loops : List (List Int64)}
+    (hc : disjointCycles ws ms = true) (h : rings ws ms = .ok loops) : ∀ l ∈ loops, isClosedRing ws l = true := by
+  unfold rings at h
+  split at h
+  · cases h
+  · exact group_closed (cyc_of_disjointCycles hc) h (fun x hx => hx) (fun v => Or.inl (sc_nil ws ms v)) (by simp)
+
+
 end B6.Lemmas.OsmRings
